@@ -38,6 +38,7 @@ const TYPES: [&str; 3] = ["detection", "filter", "dependency"];
 
 /// C06: all DAG shapes over up to 4 rules, every type at every position
 pub fn gen_c06(tier: &str, seed: u64, out: &mut dyn FnMut(Value)) {
+    crate::props::c14::gen_reference_histories(out);
     let mut rng = Rng::new(seed);
     let thorough = tier == "thorough";
     let names = ["r0", "r1", "r2", "r3"];
@@ -119,6 +120,68 @@ pub fn deep_chain(depth: usize) -> Vec<SRule> {
         });
     }
     rules
+}
+
+/// more distinct (source, id) pairs on one engine than any bounded table of them would hold, then the first ones again
+/// (a kind seen before answers as it did, however many others came in between)
+pub fn many_kinds(rng: &mut Rng, out: &mut dyn FnMut(Value)) {
+    let rules = vec![
+        SRule { name: "a".into(), match_on: Some(serde_json::json!([["s", []]])), ops: vec![("$a".into(), Operand::Test { segs: fpath(0), op: 0, lit: Lit::sq("1") })], cond: Some(Form::V("$a".into())), ..Default::default() },
+        SRule { name: "b".into(), ops: vec![("$a".into(), Operand::Test { segs: fpath(0), op: 0, lit: Lit::sq("0") })], cond: Some(Form::V("$a".into())), severity: Some(2), ..Default::default() },
+        SRule { name: "c".into(), match_on: Some(serde_json::json!([["s", [3, 64, -5]], ["t", []]])), ops: vec![("$a".into(), Operand::Test { segs: fpath(0), op: 0, lit: Lit::sq("1") })], cond: Some(Form::V("$a".into())), severity: Some(4), ..Default::default() },
+    ];
+    // one long sequence: distinct kinds, and each time their number reaches a round figure (a likely capacity of a
+    // bounded table) two kinds seen before are scanned again
+    {
+        let mk = |i: usize| DynEvent { source: "s".into(), id: i as i64 - 50, fields: vec![(fpath(0), s1(if i % 3 == 0 { "0" } else { "1" }))] };
+        let mut events: Vec<DynEvent> = vec![];
+        for i in 0..10000usize {
+            events.push(mk(i));
+            let n = i + 1;
+            if (n >= 64 && n.is_power_of_two()) || [100usize, 500, 1000, 2000, 5000, 10000].contains(&n) {
+                events.push(mk(0));
+                events.push(mk(i));
+                events.push(mk(53));
+            }
+        }
+        out(scenario_json(&rules, &events, rng, "thousands of distinct (source, id) pairs on one engine, then known ones again"));
+    }
+    for (n, by_source) in [(1030usize, false), (2100, false), (1100, true)] {
+        let mk = |i: usize| DynEvent {
+            source: if by_source { format!("s{i}") } else { "s".into() },
+            id: if by_source { 1 } else { i as i64 - 50 },
+            fields: vec![(fpath(0), s1(if i % 3 == 0 { "0" } else { "1" }))],
+        };
+        let mut events: Vec<DynEvent> = (0..n).map(mk).collect();
+        // known kinds again, right at the sizes a table might be cleared at, and after
+        for i in [0usize, 1, 2, 53, 114, 1023, 1024, 1025] {
+            if i < n {
+                events.push(mk(i));
+                events.push(mk(i + 1));
+            }
+        }
+        out(scenario_json(&rules, &events, rng, "thousands of distinct (source, id) pairs on one engine, then known ones again"));
+    }
+}
+
+/// one kind of event with far more than 64 candidate rules, events matching one or two of them, far apart
+pub fn many_candidates(rng: &mut Rng, out: &mut dyn FnMut(Value)) {
+    for n in [66usize, 70, 130, 200] {
+        let rules: Vec<SRule> = (0..n)
+            .map(|i| SRule {
+                name: format!("d{i:03}"),
+                ops: vec![("$a".into(), Operand::Test { segs: fpath(0), op: 0, lit: Lit::sq(&format!("v{i}")) }), ("$b".into(), Operand::Test { segs: fpath(1), op: 0, lit: Lit::sq(&format!("v{i}")) })],
+                cond: Some(Form::Or(Box::new(Form::V("$a".into())), Box::new(Form::V("$b".into())))),
+                severity: Some((i % 11) as u64),
+                ..Default::default()
+            })
+            .collect();
+        let events: Vec<DynEvent> = [(69usize, 69usize), (5, 5), (0, 64), (64, 0), (1, 65), (65, 65), (n - 1, 2), (63, 63), (127 % n, 63)]
+            .iter()
+            .map(|(a, b)| DynEvent { source: "s".into(), id: 1, fields: vec![(fpath(0), s1(&format!("v{}", a % n))), (fpath(1), s1(&format!("v{}", b % n)))] })
+            .collect();
+        out(scenario_json(&rules, &events, rng, "more than 64 candidate rules for one kind of event"));
+    }
 }
 
 /// dozens of detections matching one event, severities at the cap and far above it: the sum is capped, never wrapped,
@@ -242,6 +305,18 @@ pub fn gen_c12(tier: &str, seed: u64, out: &mut dyn FnMut(Value)) {
         }
         out(serde_json::json!({"op": "history_meta", "n_rules": n_rules, "events": events, "tag": "implementation only: used engine vs pristine clone, > 65536 rules", "nt": true}));
     }
+    many_kinds(&mut rng, out);
+    many_candidates(&mut rng, out);
+    // kinds no rule applies to, by the hundred thousand, then kinds rules do apply to (implementation only)
+    {
+        let ev = |src: &str, id: i64, x: &str, y: &str| serde_json::json!({"source": src, "id": id, "fields": [[["x"], {"s": x}], [["y"], {"s": y}]]});
+        let mut events = vec![ev("s", 1, "1", "1"), serde_json::json!({"distinct": if tier == "thorough" { 400000 } else { 200000 }, "event": ev("nobody", 0, "1", "1")})];
+        for id in 1..=40i64 {
+            events.push(ev("s", id, "1", "1"));
+            events.push(ev("other", 7, "1", "1"));
+        }
+        out(serde_json::json!({"op": "history_meta", "n_rules": 5, "events": events, "tag": "implementation only: hundreds of thousands of kinds no rule applies to, then kinds rules apply to", "nt": true}));
+    }
     // a wide rule (`any of them` / `N of them` over 16..20 operands) on one engine: which operand decided the previous
     // event must not matter for the next one (a missing field earlier in the order is an error, whatever matched before)
     for k in 0..(if tier == "thorough" { 2000 } else { 150 }) {
@@ -305,6 +380,7 @@ pub fn gen_c12(tier: &str, seed: u64, out: &mut dyn FnMut(Value)) {
 /// C13: S, supersets S+T, and dependency-respecting permutations of S
 pub fn gen_c13(tier: &str, seed: u64, out: &mut dyn FnMut(Value)) {
     let mut rng = Rng::new(seed);
+    many_kinds(&mut rng, out);
     // more unrelated rules than a 16-bit index can address, loaded before or after the rules that matter: the two
     // engines must agree on every event (implementation only; the model's side is `C13_load_order`)
     for n_rules in if tier == "thorough" { vec![65_540usize, 131_080] } else { vec![65_540usize] } {
@@ -396,23 +472,7 @@ pub fn gen_c13(tier: &str, seed: u64, out: &mut dyn FnMut(Value)) {
 pub fn gen_c09(tier: &str, seed: u64, out: &mut dyn FnMut(Value)) {
     let mut rng = Rng::new(seed);
     many_matching(&mut rng, out);
-    // more distinct (source, id) pairs on one engine than any bounded table of them would hold
-    {
-        let rules = vec![
-            SRule { name: "a".into(), match_on: Some(serde_json::json!([["s", []]])), ops: vec![("$a".into(), Operand::Test { segs: fpath(0), op: 0, lit: Lit::sq("1") })], cond: Some(Form::V("$a".into())), ..Default::default() },
-            SRule { name: "b".into(), ops: vec![("$a".into(), Operand::Test { segs: fpath(0), op: 0, lit: Lit::sq("0") })], cond: Some(Form::V("$a".into())), severity: Some(2), ..Default::default() },
-        ];
-        for (n, by_source) in [(2100usize, false), (4200, false), (1100, true)] {
-            let events: Vec<DynEvent> = (0..n)
-                .map(|i| DynEvent {
-                    source: if by_source { format!("s{i}") } else { "s".into() },
-                    id: if by_source { 1 } else { i as i64 - 50 },
-                    fields: vec![(fpath(0), s1(if i % 3 == 0 { "0" } else { "1" }))],
-                })
-                .collect();
-            out(scenario_json(&rules, &events, &mut rng, "thousands of distinct (source, id) pairs on one engine"));
-        }
-    }
+    many_kinds(&mut rng, out);
     // the C03 product already feeds every value kind to every operator; here: rule sets under scan
     crate::props::c03::gen(tier, seed, out);
     let weird = [
@@ -497,6 +557,15 @@ pub fn exec_history_meta(case: &Value) -> Value {
     // an entry `{"repeat": n, "event": e}` stands for n copies of e
     let mut events: Vec<Value> = vec![];
     for e in case["events"].as_array().cloned().unwrap_or_default() {
+        if let Some(k) = e.get("distinct").and_then(|r| r.as_u64()) {
+            // k events of k different kinds: the same source, ids 0..k
+            for i in 0..k {
+                let mut ev = e["event"].clone();
+                ev["id"] = json!(i as i64);
+                events.push(ev);
+            }
+            continue;
+        }
         match e.get("repeat").and_then(|r| r.as_u64()) {
             Some(k) => {
                 for _ in 0..k {
